@@ -122,6 +122,37 @@ def encPath (C : Codec) : Path → Xml
       | none => E "LOCALCLASSPATH" [] [localNsPath n, cnm]
       | some h => E "CLASSPATH" [] [nsPath h n, cnm]
 
+/-- `CIMInstanceName.tocimxml(ignore_host, ignore_namespace)` / `CIMClassName.tocimxml(...)`: the two options
+    select a shorter element form for the path they are called on; reference keybindings inside it are written
+    by their own `tocimxml()` with default arguments (condition for condition as in the code:
+    `if self.namespace is None or ignore_namespace`, `if self.host is None or ignore_host`) -/
+def encPathOpt (C : Codec) (ignoreHost ignoreNs : Bool) : Path → Xml
+  | .inst cls host ns keys =>
+    let inm := E "INSTANCENAME" [("CLASSNAME".toList, cls)] (encKeys C keys)
+    match ns, ignoreNs with
+    | none, _ => inm
+    | some _, true => inm
+    | some n, false =>
+      match host, ignoreHost with
+      | none, _ => E "LOCALINSTANCEPATH" [] [localNsPath n, inm]
+      | some _, true => E "LOCALINSTANCEPATH" [] [localNsPath n, inm]
+      | some h, false => E "INSTANCEPATH" [] [nsPath h n, inm]
+  | .cls cls host ns =>
+    let cnm := E "CLASSNAME" [("NAME".toList, cls)] []
+    match ns, ignoreNs with
+    | none, _ => cnm
+    | some _, true => cnm
+    | some n, false =>
+      match host, ignoreHost with
+      | none, _ => E "LOCALCLASSPATH" [] [localNsPath n, cnm]
+      | some _, true => E "LOCALCLASSPATH" [] [localNsPath n, cnm]
+      | some h, false => E "CLASSPATH" [] [nsPath h n, cnm]
+
+/-- what the options amount to: the same path with host / namespace removed at the TOP level only -/
+def Path.stripTop (ignoreHost ignoreNs : Bool) : Path → Path
+  | .inst cls host ns keys => .inst cls (if ignoreHost || ignoreNs then none else host) (if ignoreNs then none else ns) keys
+  | .cls cls host ns => .cls cls (if ignoreHost || ignoreNs then none else host) (if ignoreNs then none else ns)
+
 /-- one entry of a VALUE.ARRAY -/
 def encArrItem (C : Codec) : Atom → Xml
   | .null => if Pywbem.Generated.sendValueNull then E "VALUE.NULL" [] [] else E "VALUE" [] []
